@@ -831,6 +831,29 @@ class _Gen:
                 s.mods.append(cm)
                 cons.append({'mid': cm.mid, 'uid': uid, 'refs': refs, 'kind': kind, 'cu': cu, 'style': style})
         s.notes['consumers'] = cons
+        # insiders: definitions of the defining module itself that name the re-exported object in annotations, by the name it has
+        # there, and that are themselves re-exported by a module that does not bind that name
+        ins = []
+        for uid, (rmid, exported) in list(s.moved.items()):
+            dmid, qual, kind = s.defs[uid]
+            dm = next(x for x in s.mods if x.mid == dmid)
+            if r.random() < .5 or '.' in qual or s.notes.get(('all', dmid)) or dm.is_pkg:
+                continue
+            cu = self.new_uid()
+            D = s.modname(dmid)
+            cname, fname = f'I{cu}', f'i{cu}'
+            dm.items.append(Item(kind='raw', name=cname, text=(
+                f'class {cname}:\n    """Insider class."""\n    t{cu}: {qual} = None\n    """Insider attribute."""\n'
+                f'    def im{cu}(self, a: {qual}) -> {qual}:\n        """Insider method."""\n'
+                f'def {fname}(a: {qual}) -> \'{qual}\':\n    """Insider function."""')))
+            cexp = cname if r.random() < .6 else f'X{cu}'
+            pm = Mod(len(s.mods), f"{r.choice(['a', 'z', 'm'])}pub{cu}", root.mid, False, order=10 ** 5 + cu)
+            imp = f'{cname} as {cexp}' if cexp != cname else cname
+            pm.items = [Item(kind='raw', text=f'from {D} import {imp}, {fname}\n__all__ = [{cexp!r}, {fname!r}]')]
+            pm.doc = f'Publishes insiders of object {uid}.'
+            s.mods.append(pm)
+            ins.append({'uid': uid, 'pmid': pm.mid, 'cls': cexp, 'fn': fname, 'cu': cu, 'written': qual})
+        s.notes['insiders'] = ins
 
     def add_privacy(self) -> None:
         r, s = self.r, self.spec
